@@ -330,6 +330,18 @@ def unary(ck, F):
                "NOT x = from_bool(!to_bool(x))", "NOT does %s" % got.get("Not"), b.span)
 
 
+def _track_bool(body, st, env):
+    if st["k"] != "assign" or st["place"]["proj"] or body.local_ty(st["place"]["local"]) != "bool":
+        return
+    l, rv = st["place"]["local"], st["rv"]
+    if rv["k"] == "use" and rv["op"].get("k") == "const":
+        env[l] = bool(rv["op"].get("int"))
+    elif rv["k"] == "use" and rv["op"].get("k") in ("copy", "move") and not rv["op"]["place"]["proj"]:
+        env[l] = env.get(rv["op"]["place"]["local"], "other")
+    else:
+        env[l] = "other"
+
+
 def logical(ck, F):
     for fn, short_on in (("operators::evaluate_logical_or", True), ("operators::evaluate_logical_and", False)):
         b = get_fn(ck, F, fn)
@@ -349,16 +361,20 @@ def logical(ck, F):
             val = None
             if fb:
                 loc = fb[0].args[0]["place"]["local"] if fb[0].args[0]["k"] in ("copy", "move") else None
+                env = {}       # what each bool local holds along this path: True / False / "left" / "right" / "other"
                 for bb in r["path"]:
+                    if bb == fb[0].bb:
+                        for st in b.blocks[bb]["stmts"]:
+                            _track_bool(b, st, env)
+                        break
                     for st in b.blocks[bb]["stmts"]:
-                        if st["k"] == "assign" and not st["place"]["proj"] and st["place"]["local"] == loc:
-                            if st["rv"]["k"] == "use" and st["rv"]["op"].get("k") == "const":
-                                val = bool(st["rv"]["op"].get("int"))
-                            else:
-                                val = "right"
+                        _track_bool(b, st, env)
                     c = b.call_at(bb)
-                    if c is not None and not c.dest["proj"] and c.dest["local"] == loc and sfx(c.callee, "Value::to_bool"):
-                        val = "right" if expr_params(b.expr(c.args[0])) == {1} else "left"
+                    if c is not None and not c.dest["proj"] and sfx(c.callee, "Value::to_bool"):
+                        env[c.dest["local"]] = "right" if expr_params(b.expr(c.args[0])) == {1} else "left"
+                val = env.get(loc)
+                if val == "other":
+                    val = "right"
             table[(lv, rv_)] = (val, r["outcome"])
         if short_on:   # OR: left true -> true ; else right
             good = table.get((True, None), (None,))[0] is True and all(v[0] == "right" for k, v in table.items() if k[0] is False)
@@ -458,6 +474,9 @@ def print_format(ck, F):
     ok = False
     for c in b.calls():
         if c.callee.endswith("Argument::new_display") and "f64" in c.gargs:
+            ok = True
+        # `number.to_string()` is `<f64 as Display>` as well
+        if c.callee.endswith("ToString>::to_string") and (c.gargs[:1] == ["f64"] or "f64" in str(c.args[0].get("place", {}).get("ty", ""))):
             ok = True
     ck.require(ok, "C02:PRINT:number-display", "PRINT formatting", "numbers are formatted with <f64 as Display>",
                "PRINT no longer formats numbers with f64's Display", b.span)
